@@ -187,7 +187,8 @@ REWRITE = {
     "C04": [("PARTIAL: the lift over whole histories (fillers + write_config, no duplicate / no unlisted shard, in-memory = on-disk description, termination of the merge) is not a theorem; it is checked by",
              "LIFTED over whole histories (c04_every_history_is_exact): for every shard size and every history of sessions (root/sub-directory/nested/reused-directory fillers and multi-writer calls with arbitrary write sequences) "
              "that completes, every split's summary in the description is exact for its whole subtree (invariant: locally well-formed documents + fresh names + exact summaries, carried through add_shard, the exit rewrite and write_config's per-split merges). "
-             "PARTIAL: no duplicate / no unlisted shard, in-memory = on-disk description and termination of the merge (fuel) are not theorems; they are checked by")],
+             "and (c04_no_shard_unlisted) every stored shard file is reached by the depth-first traversal from its split's root (every list document stays linked from the split root; second induction over the merge). "
+             "PARTIAL: that no shard is listed twice, in-memory = on-disk description and termination of the merge (fuel) are not theorems; they are checked by")],
     "C08": [("PARTIAL as C04: append-only over whole histories is checked on the implementation:",
              "LIFTED over whole histories (c08_history_appends_only): whatever sessions follow a prefix of a history, every stored shard file and every shard entry of every list is still there, same list, same position, "
              "only possibly followed by new entries. PARTIAL: that iteration then returns old+new examples is checked on the implementation:")],
@@ -196,6 +197,11 @@ REWRITE = {
              "(GenPipeline.v: buffer sizes, guards, process_record placement, batches, process_and_list) and proved to yield a permutation of `every example of every selected shard, processed once` for every decoder, shuffle size, "
              "thread count, random sequence and pool completion order; under a fixed LCG seed the generated compositions equal the real interfaces element by element. "
              "PARTIAL: the depth-first shard list over nested lists, as_tfdataset and the Rust reader are not theorems; they are checked by whole-pipeline runs:")],
+    "C06": [("PARTIAL: that the library's sessions satisfy the discipline is not proved for all sessions; it is checked per run:",
+             "SESSIONS (c06_every_history_publishes_in_order, c06_every_cut_is_closed): in the session model of C04 (fillers into any directory, multi-writer calls, the recursive merge; kernels regenerated from the source) "
+             "the stored lists and shard files form publication logs stamped by one counter, and for every history that completes every list document ever published references only shard files (with the recorded digest) and child lists "
+             "published strictly before it; hence the crash state at ANY moment - the log cut at that stamp - resolves all references of every visible document. "
+             "PARTIAL: that the real sessions' effect traces satisfy the effect-level discipline (temporary, close, rename; the dataset description file) is checked per run:")],
     "C15": [("PARTIAL: early-drop liveness, the decoders/pyo3 layer and the epoch loop are validated on the implementation only:",
              "Termination (every pass takes at most 3n+min(T,n)+1 thread steps under every schedule) and early-drop liveness (after a drop in any state whatsoever every worker thread ends, so join returns) are theorems as well. "
              "PARTIAL: the decoders/pyo3 layer and the epoch loop are validated on the implementation only:")],
